@@ -154,8 +154,31 @@ def gen_cases(ctx, n):
     cases = []
     for i in range(n):
         r = rng.random()
-        if r < 0.26:
+        if r < 0.14:
             c = base_case(i, rng)
+        elif r < 0.20:
+            # cycles: one model, sequential load / finish / expire / unload cycles, more of them than the internal
+            # event queues have slots (OLLAMA_MAX_QUEUE); passive drain
+            mq = rng.choice([1, 1, 2, 3])
+            c = base_case(i, rng, nmodels=1, nreq=rng.randint(mq + 2, 3 * mq + 1), klass="cycles")
+            for q in c["reqs"]:
+                q["ka"], q["ngpu"], q["adapter"], q["ctx"] = rng.choice([0, 0, 5]), -1, 0, 2048
+            c["models"][0].update({"bad": False, "vram": 10 ** 9})
+            c["max"], c["maxq"], c["passive"], c["sequential"], c["cancel_hot"] = rng.choice([0, 1, 3]), mq, True, True, 0.9
+            c["pint"], c["pfail"], c["steps"] = 0.9, 0.0, 60 * len(c["reqs"])
+        elif r < 0.26:
+            # dup-expiry-reload: one model, several unload reasons for the same idle runner (keep-alive timer, explicit
+            # unload, eviction), the model loaded again while the completed loop is still busy with the first of them
+            c = base_case(i, rng, nmodels=rng.choice([1, 1, 2]), nreq=rng.randint(3, 5), klass="dup-expiry-reload")
+            for q in c["reqs"]:
+                q["m"], q["ka"], q["ngpu"], q["adapter"], q["ctx"] = 0, rng.choice([0, 0, 5, 5, 10]), -1, 0, 2048
+            if len(c["models"]) == 2:
+                c["reqs"][-1]["m"] = 1
+            for m in c["models"]:
+                m["bad"], m["vram"] = False, 10 ** 9
+            c["max"], c["maxq"], c["cancel_hot"] = rng.choice([0, 1, 1]), 8, 0.6
+            c["pint"], c["pfail"], c["steps"] = 0.8, 0.0, rng.choice([110, 160])
+            c["expire_w"] = 3.0
         elif r < 0.36:
             # handover-cancel: a request for a loaded, idle runner is cancelled while the pending loop is between
             # needsReload and the hand-over; finite keep-alives, no explicit unload anywhere (passive drain): whatever
@@ -228,11 +251,29 @@ def gen_cases(ctx, n):
             for q in c["reqs"]:
                 q["ngpu"], q["adapter"], q["ctx"], q["ka"] = -1, 0, 2048, rng.choice([-1, 1000])
             c["max"], c["pfail"] = rng.choice([0, 2, 3]), 0.0
-            if rng.random() < 0.5:
+            v_ = rng.random()
+            if v_ < 0.3:
                 # the next model fits with one slot but not with the four the scheduler tries first
                 c["models"][0]["edge_par"] = 4
                 c["par"] = rng.choice([0, 0, 4])
-        if c["klass"] != "queue" and rng.random() < 0.5:
+            elif v_ < 0.5:
+                # CPU inference: system memory left is enough for one slot but not for the slots the scheduler uses
+                c["par"] = rng.choice([0, 0, 4, 2])
+                c["models"][0].update({"edge_par": c["par"] or 4, "edge_cpu": True})
+                for q in c["reqs"]:
+                    q["ngpu"] = 0
+                c["force_direct"] = True
+            elif v_ < 0.7:
+                # flash attention + quantised KV cache requested, GPUs support it, the second model cannot use it:
+                # the memory left is enough with the quantised cache but not with the f16 cache it is started with
+                kvt = rng.choice(["q8_0", "q4_0"])
+                c["fa"], c["kv_type"], c["par"] = True, kvt, rng.choice([1, 1, 2])
+                c["models"][0]["edge_kv"] = kvt
+                c["models"][1].update({"name": "m1nofa", "nofa": True})
+                if rng.random() < 0.3:
+                    c["models"][1].update({"name": "m1", "nofa": False})      # a model that can: the quantised cache is right
+                c["force_direct"] = True
+        if c["klass"] != "queue" and not c.pop("force_direct", False) and rng.random() < 0.5:
             to_sr(c)
         else:
             c["via"] = "direct"
@@ -388,6 +429,10 @@ def monitor(case, o):
         never = sorted(r for r in started if r not in closed)
         if never:
             v["C02"].append(({"class": "not-drained", "kind": "runner-never-closed"}, "after the drain runner(s) %s were started but never shut down; %s" % (never, measure_components(o))))
+        leaked = [(i_, r_[0]) for i_, r_ in enumerate(last["rs"]) if r_ and r_[0] > 0]
+        if leaked:
+            v["C11"].append(({"class": "refcount-without-holder"}, "after the drain every request has finished, yet runner(s) %s still have refCount > 0 (runner, refCount): "
+                             "such a runner never looks idle, is never expired and is passed over when room is made; %s" % (leaked, measure_components(o))))
         for q in submitted:
             if replies.get(q, 0) == 0 and q not in cancelled_before_reply(o, q):
                 v["C02"].append(({"class": "unanswered"}, "request %d was never answered" % q))
